@@ -5,6 +5,8 @@ import (
 	"encoding/hex"
 	"encoding/json"
 	"fmt"
+	"os"
+	"path/filepath"
 	"strings"
 	"time"
 
@@ -265,6 +267,11 @@ type Operator struct {
 	// Submit / Approve, when set, replace the plain API calls (observed submission).
 	Submit  func(op *types.Operation, body []byte) *APIResult
 	Approve func(op *types.Operation, body []byte) *APIResult
+	// UseResultFiles: when the machine's result directory already holds the
+	// result file of this operation (e.g. regenerated by the log replay after
+	// a restart) the operator submits that file instead of feeding the
+	// operation to the machine again.
+	UseResultFiles bool
 	// Refeed makes the operator process the operation on the airgapped
 	// machine again even if a result file exists (C12, C15)
 	Refeed bool
@@ -335,6 +342,9 @@ func (o *Operator) Handle(w *World, op *types.Operation) *APIResult {
 	if cached, ok := o.results[op.ID]; ok && !o.Refeed {
 		res = cached
 		w.Stats.Probe("result-file-resubmitted")
+	} else if fb, ferr := os.ReadFile(filepath.Join(a.ResultDir, op.Filename()+"_result.json")); o.UseResultFiles && a.Restarts > 0 && ferr == nil && !o.Refeed {
+		res = fb
+		w.Stats.Probe("result-file-from-replay-used")
 	} else {
 		res, err = w.AirProcess(a, opJSON)
 		if err != nil {
